@@ -490,6 +490,80 @@ def encoding_layer(rep, tier, keys):
     return out
 
 
+def named_layer(rep, tier):
+    """references, aliases and recursion (the enumerated trees of the encoding layer have none):
+    (a) pairs of systems that the statement says must share hash() AND hash256(): alias boundaries (an alias used once, twice as siblings, an
+        alias of an alias), alias names, property order, union member order - compared concretely on the real runtime;
+    (b) pairs of recursive systems with different behaviour (the jsdse engine decides that some value separates them): hash256 must differ."""
+    from checks import valcheck
+    S, N, NUL = {'t': 'typeof', 'name': 'string'}, {'t': 'typeof', 'name': 'number'}, {'t': 'nullish', 'd': 'null'}
+    def O(props): return {'t': 'object', 'props': props, 'index': []}
+    def R(n): return {'t': 'ref', 'name': n}
+    def U(*xs): return {'t': 'anyof', 'xs': list(xs)}
+    def C(v): return {'t': 'const', 'v': v}
+    point = O({'x': N, 'y': N})
+    same = [
+        ('alias-once', ({'P': point}, O({'p': R('P')})), ({}, O({'p': point}))),
+        ('alias-twice-siblings', ({'P': point}, O({'from': R('P'), 'to': R('P')})), ({}, O({'from': point, 'to': point}))),
+        ('alias-renamed', ({'P': point}, O({'from': R('P'), 'to': R('P')})), ({'Q': point}, O({'from': R('Q'), 'to': R('Q')}))),
+        ('alias-of-alias', ({'P': point, 'PP': R('P')}, O({'p': R('PP')})), ({'P': point}, O({'p': R('P')}))),
+        ('alias-in-array-and-tuple', ({'P': point}, {'t': 'tuple', 'prefix': [R('P')], 'rest': R('P')}), ({}, {'t': 'tuple', 'prefix': [point], 'rest': point})),
+        ('property-order', ({}, O({'a': S, 'b': N})), ({}, O({'b': N, 'a': S}))),
+        ('recursive-renamed', ({'L': O({'v': N, 'next': U(R('L'), NUL)})}, R('L')), ({'M': O({'v': N, 'next': U(R('M'), NUL)})}, R('M'))),
+        ('mutual-renamed', ({'A': O({'k': C('a'), 'n': U(R('B'), NUL)}), 'B': O({'k': C('b'), 'n': U(R('A'), NUL)})}, R('A')),
+                           ({'X': O({'k': C('a'), 'n': U(R('Y'), NUL)}), 'Y': O({'k': C('b'), 'n': U(R('X'), NUL)})}, R('X'))),
+    ]
+    differ = [
+        ('mutual-vs-self-tail', ({'A': O({'k': C('a'), 'n': U(R('B'), NUL)}), 'B': O({'k': C('b'), 'n': U(R('A'), NUL)})}, R('A')),
+                                ({'A2': O({'k': C('a'), 'n': U(R('B2'), NUL)}), 'B2': O({'k': C('b'), 'n': U(R('B2'), NUL)})}, R('A2'))),
+        ('back-edge-target', ({'A': O({'k': C('a'), 'n': O({'k': C('b'), 'n': U(R('A'), NUL)})})}, R('A')),
+                             ({'A2': O({'k': C('a'), 'n': R('B2')}), 'B2': O({'k': C('b'), 'n': U(R('B2'), NUL)})}, R('A2'))),
+        ('list-of-number-vs-string', ({'L': O({'v': N, 'next': U(R('L'), NUL)})}, R('L')), ({'L2': O({'v': S, 'next': U(R('L2'), NUL)})}, R('L2'))),
+    ]
+    systems = []
+    for name, a, b in same + differ:
+        systems.append({'name': name + '/a', 'defs': a[0], 'root': a[1]})
+        systems.append({'name': name + '/b', 'defs': b[0], 'root': b[1]})
+    r = subprocess.run(['node', os.path.join(VERIF, 'jsdse', 'hash_named.mjs'), RT, json.dumps(systems)], stdout=subprocess.PIPE, stderr=subprocess.PIPE, text=True, timeout=300, env=ENV)
+    if r.returncode != 0:
+        raise Inconclusive('hash_named failed: ' + r.stderr[-500:])
+    res = {x['name']: x for x in json.loads(r.stdout)}
+    out = {'same_pairs': len(same), 'differ_pairs': len(differ), 'separated_by_solver': 0}
+    for name, a, b in same:
+        ra, rb = res[name + '/a'], res[name + '/b']
+        if 'error' in ra or 'error' in rb:
+            rep.violation(f'c13:named:{name}:throws', f'hash()/hash256() of a system of named types throws: {ra.get("error") or rb.get("error")}', {'cmd': 'hash-named', 'systems': [a, b]})
+            continue
+        # the 32-bit clause of the statement does not promise independence of the NAMES of recursive types (hash256's clause does)
+        for which in (('hash256',) if name in ('recursive-renamed', 'mutual-renamed') else ('hash', 'hash256')):
+            if ra[which] != rb[which]:
+                rep.violation(f'c13:{which}:named:{name}', f'{which}() differs between two spellings that differ only in {name.replace("-", " ")}: {json.dumps(a)[:200]} -> {ra[which]} vs '
+                              f'{json.dumps(b)[:200]} -> {rb[which]}', {'cmd': 'hash-named', 'systems': [a, b], 'result': [ra, rb]})
+    for name, a, b in differ:
+        ra, rb = res[name + '/a'], res[name + '/b']
+        if 'error' in ra or 'error' in rb:
+            rep.violation(f'c13:named:{name}:throws', f'hash256() throws: {ra.get("error") or rb.get("error")}', {'cmd': 'hash-named', 'systems': [a, b]})
+            continue
+        # the two systems must really disagree on some value: decided by the engine on a shared symbolic value
+        defs = dict(a[0]); defs.update(b[0])
+        job = valcheck.make_job('named-' + name, a[1], defs, 'C13', tier, hostile=False)
+        job['specB'] = b[1]
+        job['maxDepth'] = 3
+        rr = valcheck.run_harness(job, RTI, timeout=600)
+        if 'harness_error' in rr:
+            rep.note_inconclusive('named layer: harness failed: ' + rr['harness_error'][:200])
+            continue
+        vs = [v for v in rr.get('violations', []) if v['prop'] == 'C13']
+        if not vs:
+            rep.note_inconclusive(f'named layer: the engine found no value separating the two systems of pair {name} (expected one)')
+            continue
+        out['separated_by_solver'] += 1
+        if ra['hash256'] == rb['hash256']:
+            rep.violation(f'c13:hash256:named-collision:{name}', f'two recursive validators that disagree on {vs[0]["input"][:120]} have the same hash256: {json.dumps(a)[:220]} vs {json.dumps(b)[:220]}',
+                          {'cmd': 'hash-named', 'systems': [a, b], 'witness': vs[0].get('concrete'), 'result': [ra, rb]})
+    return out
+
+
 def main(tier):
     rep = Report(PID, tier)
     build_runtime()
@@ -504,6 +578,11 @@ def main(tier):
     except Inconclusive as e:
         rep.note_inconclusive('encoding layer: ' + str(e)[:300])
         enc = {}
+    try:
+        named = named_layer(rep, tier)
+    except Inconclusive as e:
+        rep.note_inconclusive('named layer: ' + str(e)[:300])
+        named = {}
     coverage = {
         'explanation': 'The real hash.ts is type-stripped and instrumented (tsx, swc) and executed under Node with symbolic message bytes; the $S runtime '
                        'records the exact-integer expression DAG of the digest (JS number semantics, ToInt32/ToUint32 at bit operators). z3 proves the DAG '
@@ -514,7 +593,7 @@ def main(tier):
                 'every digest nibble proved equal to the reference for all 2^(8n) messages',
         'samples': sha['samples'] or [{'spec': 'none'}],
         'obligations': sha['cut_points_proved'], 'queries': sha['queries'], 'cache_hits': sha['cache_hits'], 'solver_s': sha['solver_s'],
-        'layers': {'sha256': sha, 'hash32': h32, 'hash256_encoding': enc},
+        'layers': {'sha256': sha, 'hash32': h32, 'hash256_encoding': enc, 'named_types': named},
         'functions_encoded': ['Hash256Writer.updateBytes', 'Hash256Writer.processChunk', 'Hash256Writer.digestHex', 'rotateRight', 'updateTag/String/Number/Boolean/Null',
                               'updateUtf8WithLength', 'updateUint32'],
         'bounds': 'messages up to %d bytes; one write and the enumerated two-way (thorough: also three-way) splits around block / padding boundaries; '
